@@ -82,6 +82,33 @@ CHECKS = {
         note="NARROW: convergence, shortestness, symmetries and the canonicalisation bookkeeping are numerical and NOT decided.",
         technique="conditional-initialisation (licence/taint) dataflow over the clang CFG + loop classification",
         ref="3.3 L1, 3.4 X6, 4 (C02)"),
+    'C08': dict(
+        text="Decides the bookkeeping clauses of the polygon property for every edit history at once, over the three "
+             "instantiations (Geodesic, GeodesicExact, Rhumb): (P1) the tentative queries and Compute cannot change "
+             "the polygon - no const method can write object state (effect analysis, a compile-time fact kept one); "
+             "(P2) polylines never write the area; (P3) Clear() resets every member AddPoint/AddEdge modify (derived "
+             "write sets, no frozen list); (P4) every inverse edge is counted with transit of the same longitudes and "
+             "every direct edge with transitdirect of its unrolled longitude, with LONG_UNROLL requested, never "
+             "crosswise; (P5) every solver output that is consumed was requested by _mask as the constructor builds it.",
+        note="NOT decided: that the accumulated sums are the area/perimeter, the accumulator arithmetic, the value of "
+             "the crossing parity functions themselves.",
+        technique="effect analysis + path-fact gating + call pairing over resolved callees + licence dataflow with bit-level masks",
+        ref="3.7"),
+    'C20': dict(
+        text="Decides history independence of Geoid::height structurally: (K1) the cached cell data are a function of the "
+             "cell key only - no value derived from the floating query position is cached, and every read of a cached "
+             "value is on paths that establish equality of every key member with the current cell and !_threadsafe; "
+             "(K2) key and values are updated together from the locals that produced the result; (K3) only height() "
+             "and the constructor write them and the constructor leaves an impossible key; (K4) every write to mutable "
+             "state from const methods is under !_threadsafe, and _threadsafe is set only after CacheAll()+close(); "
+             "(K5) every stream use is inside a try converting to GeographicErr; (K6) the area cache is read "
+             "big-endian; (T5) the three cubic least-squares tables are exact projectors on the 12-point stencil "
+             "(integer algebra on the extracted tables, stencil order and Horner form).",
+        note="NOT decided: that the gathered pixels are the right ones (longitude wrap, pole reflection, area-cache "
+             "geometry), continuity/linearity as numbers, ConvertHeight, header validation arithmetic. Assumes "
+             "A-GEOID-FULLCACHE and A-RAWVAL-BIGENDIAN.",
+        technique="backward slicing + path facts on the clang CFG + effect analysis + exact integer table algebra",
+        ref="3.6, 3.5 T5"),
     'C01': dict(
         text="Decides one structural necessary condition of the accuracy statement: the Maxima-generated series "
              "tables A1, C1, C1', A3, C3 of the active order agree, monomial by monomial as exact rationals, with the "
